@@ -30,6 +30,18 @@ def run_one(name, spec, wdir):
         return {'name': name, 'status': 'anchor-missing', 'detail': r.stdout.strip()[:200]}
     env = dict(os.environ)
     env['GDSL_WORK'] = os.path.join(wdir, 'work')
+    if spec.get('benign'):
+        props = [json.loads(l)['id'] for l in open(os.path.join(VERIF, 'properties.jsonl'))]
+        alarms = []
+        for prop in props:
+            c = subprocess.run([os.path.join(VERIF, 'check'), prop, '--repo', repo, '--no-evidence'], stdout=subprocess.PIPE, stderr=subprocess.STDOUT, text=True, env=env)
+            if c.returncode == 2:
+                return {'name': name, 'status': 'does-not-compile', 'detail': c.stdout[-300:]}
+            if c.returncode != 0:
+                alarms.append('%s:%s' % (prop, ','.join(sorted(set(re.findall(r'^\s+rule=(\S+)', c.stdout, re.M))))))
+        if alarms:
+            return {'name': name, 'status': 'SURVIVED', 'detail': 'FALSE ALARM on a behaviour-preserving edit: ' + ' '.join(alarms)}
+        return {'name': name, 'status': 'silent', 'expect': []}
     res = {'name': name, 'status': 'killed', 'expect': spec['expect'], 'fired': []}
     for prop, rule in spec['expect']:
         c = subprocess.run([os.path.join(VERIF, 'check'), prop, '--repo', repo, '--no-evidence'], stdout=subprocess.PIPE, stderr=subprocess.STDOUT, text=True, env=env)
@@ -87,7 +99,7 @@ def main():
                 print('%-16s %s %s' % (r['status'], r['name'], r.get('detail', '')))
     finally:
         shutil.rmtree(base, ignore_errors=True)
-    killed = sum(1 for r in results if r['status'] == 'killed')
+    killed = sum(1 for r in results if r['status'] in ('killed', 'silent'))
     print('mutants: %d total, %d killed, %d survived, %d not applicable (%.0fs)' % (
         len(results), killed, sum(1 for r in results if r['status'] == 'SURVIVED'), sum(1 for r in results if r['status'] in ('anchor-missing', 'does-not-compile')), time.time() - t0))
     if a.json:
